@@ -178,6 +178,38 @@ class NameLookupRewriteVisitor(NodeTransformerBase):
         finally:
             self.scopes.pop()
 
+    def visit_comprehension_expr(self, node: Any) -> ast.AST:
+        # The loop variables of a comprehension are local to it (they
+        # must not end up as template variables); only the first
+        # iterable is evaluated in the enclosing scope.
+        first = node.generators[0]
+        first.iter = self.visit(first.iter)
+        scope = set(self.scopes[-1])
+        for generator in node.generators:
+            for target in ast.walk(generator.target):
+                if isinstance(target, ast.Name):
+                    scope.add(target.id)
+        self.scopes.append(scope)
+        try:
+            for generator in node.generators:
+                if generator is not first:
+                    generator.iter = self.visit(generator.iter)
+                generator.target = self.visit(generator.target)
+                generator.ifs = [self.visit(test) for test in generator.ifs]
+            if isinstance(node, ast.DictComp):
+                node.key = self.visit(node.key)
+                node.value = self.visit(node.value)
+            else:
+                node.elt = self.visit(node.elt)
+        finally:
+            self.scopes.pop()
+        return node  # type: ignore[no-any-return]
+
+    visit_ListComp = visit_comprehension_expr
+    visit_SetComp = visit_comprehension_expr
+    visit_DictComp = visit_comprehension_expr
+    visit_GeneratorExp = visit_comprehension_expr
+
 
 class ItemLookupOnAttributeErrorVisitor(NodeTransformerBase):
     def visit_Attribute(self, node: ast.Attribute) -> ast.AST:
